@@ -1,21 +1,46 @@
 //! C04 — decoders never panic or run away on arbitrary input; every accessor
 //! of a successfully decoded value is panic-free.
 //!
-//! Level: fault_enumeration. Seeds: every file of a decodable type under
-//! `<repo>/test-data` plus freshly built objects of every type. Spaces:
-//! bound 0 (the seeds), bound 1 (every E4 operator at every TLV node, every
-//! truncation, every octet := {00,7F,80,FF}), bound 2 (thorough: all pairs of
-//! a reduced node-level menu on one seed per type; (length-form operator
-//! anywhere) x (any operator anywhere)), all octet strings up to 2 (3)
-//! octets into every entry point, and "re-signed" deviations (the deviation
-//! is applied to a to-be-signed part of a fresh object which is then signed
-//! again, so that the code behind the signature checks is reached).
+//! Level: fault_enumeration. Nothing here is sampled: every space is a finite
+//! list of cases, each a pure function of (seed, index).
 //!
-//! Every case is executed in a worker subprocess (this binary re-executed
-//! with `--c04-worker`, RLIMIT_AS 2 GiB, wall budget per batch). A worker
-//! that dies or stalls gets its batch bisected to the single input, which is
-//! reported as a violation; failures of the worker machinery itself are
-//! machinery errors (exit 2).
+//! Seeds: every file of a decodable type under `<repo>/test-data` (empty
+//! files skipped; base64 payloads of `serde-compat/*.json` included) plus
+//! freshly built objects of every type (library builders and, for objects
+//! whose signed parts are to be rewritten, the independent encoder E5).
+//!
+//! Entry points (19 with modes): Cert, Crl, Manifest s/r, Roa s/r, Aspa s/r,
+//! Rta s/r, Tal::read_named, PublicKey, RpkiCaCsr, BgpsecCsr, IdCert,
+//! SignedMessage s/r, ProvisioningCms, PublicationCms.
+//!
+//! Spaces:
+//!  * bound0.seeds — the seeds themselves;
+//!  * bound1.single_deviation — every E4 operator at every TLV node, every
+//!    truncation, every octet := {00,7F,80,FF} (thorough: every bit flip);
+//!  * bound1.resigned — every operator at every node of a to-be-signed part
+//!    of a fresh object, which is then signed again with the pool keys, so
+//!    that the code behind the signature checks (revocation lookup of a
+//!    signed message, resource verification, content verification) is
+//!    reached with deviating input;
+//!  * bound2.* (thorough) — all pairs from a reduced menu and (length-form
+//!    operator) x (any operator) on one seed per type;
+//!  * strings.short — all octet strings up to 2 (3) octets into every entry
+//!    point;
+//!  * worker.selftest — a planted abort / address-space exhaustion / hang /
+//!    stack overflow must each be isolated by the machinery.
+//!
+//! After EVERY successful decode the full accessor sweep of the decoded type
+//! runs, each accessor group under its own oracle (`C04.reencode`,
+//! `C04.crl.contains`, `C04.mft.iter_uris`, ...). A witness starts with
+//! `mode=<strict|relaxed|der|text>;cause=<captured-mode|panic|bound|abort|hang>`
+//! so that a known finding can be keyed narrowly.
+//!
+//! Every case runs in a worker subprocess (this binary re-executed with
+//! `--c04-worker`, RLIMIT_AS 2 GiB, a wall budget per batch, a Source-call
+//! budget per decode). A worker that dies or stalls gets its batch bisected
+//! to the single input, which is confirmed alone on a fresh worker and then
+//! reported as a violation (`C04.worker.abort` / `C04.worker.hang`); failures
+//! of the worker machinery itself are machinery errors (exit 2).
 
 #![allow(deprecated)]
 
@@ -270,7 +295,6 @@ struct Fixtures {
     id_tbs: Vec<u8>,
     sig_crl_tbs: Vec<u8>,
     prov_xml: Vec<u8>,
-    pub_xml: Vec<u8>,
     roa_econtent: Vec<u8>,
     mft_econtent: Vec<u8>,
     aspa_econtent: Vec<u8>,
@@ -448,7 +472,11 @@ fn build_env() -> Env {
         t
     };
     seeds.push(Seed::new("fresh/ta.tal", Kind::Tal, tal_text.clone(), true));
-    let tal = Tal::read_named("fresh".into(), &mut tal_text.as_slice()).ok();
+    // the fixture for RTA validation is the plainest possible TAL (no comment lines)
+    let tal = {
+        let (_, rest) = tal_text.split_at(tal_text.iter().position(|&c| c == b'\n').unwrap() + 1);
+        guard(|| Tal::read_named("fresh".into(), &mut &rest[..]).ok()).ok().flatten()
+    };
 
     //--- identity certificates and signed messages (E5 assembly)
     let id_ta = IdCert::new_ta(long_validity(), &Kid(0), &signer).expect("id ta");
@@ -478,7 +506,7 @@ fn build_env() -> Env {
     let aspa_econtent = der::aspa_content(Some(1), 64496, &[64497, 64498, 65000]);
     let fx = Fixtures {
         ee_cert_der: ee_der.clone(), ee_inherit_der: ee_inh_der, ee_as_der, id_ee_der, id_tbs, sig_crl_tbs,
-        prov_xml, pub_xml, roa_econtent, mft_econtent, aspa_econtent,
+        prov_xml, roa_econtent, mft_econtent, aspa_econtent,
     };
     seeds.push(Seed::new("fresh/e5.roa", Kind::Roa, e5_signed_object(&signer, der::OID_CT_ROA, &fx.roa_econtent, &fx.ee_cert_der, 2, vec![], true), true));
     seeds.push(Seed::new("fresh/e5.mft", Kind::Mft, e5_signed_object(&signer, der::OID_CT_MANIFEST, &fx.mft_econtent, &fx.ee_inherit_der, 2, vec![], true), true));
@@ -1793,7 +1821,34 @@ fn main() {
     ctx.assume("'time or memory beyond a fixed multiple of the input' is decided as counted quantities: Source calls <= 64n+1024 per decode, iterators <= n items, worker address space <= 2 GiB, a wall budget per batch of cases");
     ctx.assume("inputs further than two structural deviations from every seed and longer than 3 octets are not explored");
     let t_start = Instant::now();
-    let env = build_env();
+    // the fixtures are built with the library under test: guard against panics and stalls
+    let env = {
+        let (tx, rx) = mpsc::channel();
+        std::thread::spawn(move || { let _ = tx.send(guard(build_env)); });
+        match rx.recv_timeout(Duration::from_secs(180)) {
+            Ok(Ok(e)) => e,
+            Ok(Err(p)) => { ctx.machinery_error(format!("cannot build the fixtures: {p}")); ctx.finish() }
+            Err(_) => { ctx.machinery_error("building the fixtures did not finish within 180 s"); ctx.finish() }
+        }
+    };
+    // sanity of the deviation engine: no operator = the seed itself; the tree covers the whole object
+    for s in env.seeds.iter() {
+        if let Some(t) = &s.tree {
+            if t.apply(&s.der, &[]) != s.der || t.nodes[0].end() != s.der.len() {
+                ctx.machinery_error(format!("TLV tree of seed {} does not reproduce the seed", s.name));
+            }
+            let i = t.len() - 1;
+            if t.apply1(&s.der, i, Op::Duplicate).len() <= s.der.len() || t.apply1(&s.der, i, Op::Delete).len() >= s.der.len() {
+                ctx.machinery_error(format!("ancestor length fix-up failed on seed {}", s.name));
+            }
+            // a duplicated leaf must leave a well-formed object with more nodes
+            match Tree::parse(&t.apply1(&s.der, i, Op::Duplicate)) {
+                _ if t.len() == 1 => {}
+                Some(t2) if t2.len() > t.len() => {}
+                _ => ctx.machinery_error(format!("duplicating a node of seed {} does not give a well-formed object", s.name)),
+            }
+        }
+    }
     let nworkers: usize = std::env::var("C04_WORKERS").ok().and_then(|s| s.parse().ok()).unwrap_or(16);
 
     //--- replay of one recorded case
@@ -1855,9 +1910,9 @@ fn main() {
         let mut best: BTreeMap<Kind, usize> = BTreeMap::new();
         for (i, s) in env.seeds.iter().enumerate() {
             let Some(t) = &s.tree else { continue };
-            // only seeds that decode with the first entry point of their type
-            if !matches!(guard(|| run_case(&env, eps_for(s.kind)[0], &s.bytes, false).decoded), Ok(true))
-                && !matches!(guard(|| run_case(&env, *eps_for(s.kind).last().unwrap(), &s.bytes, false).decoded), Ok(true)) { continue }
+            // freshly built seeds (known to decode) are preferred; the parent never
+            // runs the subject on a seed itself
+            if !s.fresh && env.seeds.iter().any(|o| o.kind == s.kind && o.fresh && o.tree.is_some()) { continue }
             let better = match best.get(&s.kind) { None => true, Some(&j) => t.len() < env.seeds[j].tree.as_ref().unwrap().len() };
             if better { best.insert(s.kind, i); }
         }
@@ -1919,7 +1974,7 @@ fn main() {
         per.entry(t.sp).or_default().merge(r);
     }
     let seed_json: Vec<Value> = env.seeds.iter().enumerate().map(|(i, s)| json!({
-        "name": s.name, "kind": format!("{:?}", s.kind), "octets": s.bytes.len(), "tlv_nodes": s.tree.as_ref().map(|t| t.len()).unwrap_or(0),
+        "name": s.name, "fresh": s.fresh, "kind": format!("{:?}", s.kind), "octets": s.bytes.len(), "tlv_nodes": s.tree.as_ref().map(|t| t.len()).unwrap_or(0),
         "bound1_cases": b1_lists[i].len(), "entry_points": eps_for(s.kind).iter().map(|e| format!("{}/{}", e.name(), e.mode())).collect::<Vec<_>>(),
     })).collect();
     let skipped = std::mem::take(&mut *st.skipped.lock().unwrap());
@@ -1976,7 +2031,7 @@ fn main() {
         true, "deviation bound 1 on all seeds", Some(b1_nt));
     if thorough {
         let sp = finish_space(SpaceId::B2P, "bound2.pairs_reduced_menu",
-            "one seed per type (fewest TLV nodes) x every entry point of the type x all unordered pairs of single deviations at two different nodes from a reduced menu (tag := {02,04,30,05}; length -1, +1, 0, indefinite, non-minimal; content one short, empty, all FF, first+1, last-1, one zero octet; delete; duplicate; swap); an operator on an ancestor acts on the already rewritten descendant; non-trivial = pairs whose result differs from the seed and from both single deviations (measured by hashing; byte-identical results of different pairs are not merged)",
+            "one seed per type (the freshly built one with the fewest TLV nodes; the repository's router-csr.der for BGPsec CSRs) x every entry point of the type x all unordered pairs of single deviations at two different nodes from a reduced menu (tag := {02,04,30,05}; length -1, +1, 0, indefinite, non-minimal; content one short, empty, all FF, first+1, last-1, one zero octet; delete; duplicate; swap); an operator on an ancestor acts on the already rewritten descendant; non-trivial = pairs whose result differs from the seed and from both single deviations (measured by hashing; byte-identical results of different pairs are not merged)",
             true, "deviation bound 2, reduced menu, one seed per type", None);
         sp.set("seeds", json!(b2_seeds.iter().map(|&i| env.seeds[i].name.clone()).collect::<Vec<_>>()));
         finish_space(SpaceId::B2L, "bound2.length_form_x_any",
